@@ -24,6 +24,7 @@ Understood (nothing more):
     read from the evaluated class), enum members (by value), tuples, the list of stage results (append / `+ [..]`),
     `sum(1 for r in results if r.status == COMPLETED)` and `len([r for r in results if …])`, `len(self._stages)`,
     conditional expressions, `and` / `or` / `not`, `is None` / `is not None`, `==` / `!=` on enum members and counts.
+Every subclass of Cascade in the evaluated module must inherit `run` unchanged (the preset and AgentCascade do).
 Anything else → the path's leaf is `none` (or the whole definition, when the shape of `run` itself is not recognised):
 exactly the agreement theorems fail (fail closed).  The generated file is elaborated before it replaces the previous one; if
 it does not elaborate, all three definitions are emitted as `none`.
@@ -849,6 +850,13 @@ class Translator:
         for n in ast.walk(self.ast_tree):
             if isinstance(n, (ast.Global, ast.Nonlocal)):
                 self.rebound |= set(n.names)
+        # the translation speaks for every cascade class of the module only if none of them replaces `run`
+        base = getattr(mod, CLASS, None)
+        if not isinstance(base, type) or "run" not in vars(base):
+            raise Unsupported("Cascade.run is not defined on the evaluated class")
+        for name, v in sorted(vars(mod).items()):
+            if isinstance(v, type) and v is not base and issubclass(v, base) and v.run is not base.run:
+                raise Unsupported(f"{name} overrides run")
         self.written = set()
         self.pro_rest = None
         self.fn_of = {}
